@@ -69,8 +69,12 @@ def handle (toks : List String) : String :=
   | [op, _var, pats, hays] =>
     match parseRows pats, parseRows hays with
     | some pats, some hays =>
+      if op = "rx" || op = "rxm" then "SKIP" else
+      if op = "concat" && pats.length ≠ hays.length then "ERR:compute" else
+      -- a single haystack with several patterns: the haystack is the scalar operand
+      let hays := if hays.length = 1 && pats.length > 1 then List.replicate pats.length (hays.headD none) else hays
       match alignPats pats hays.length with
-      | none => "bad-op"
+      | none => "ERR:invalid-arg"   -- `like_op`: "Cannot compare arrays of different lengths"
       | some pats =>
         match op with
         | "like" | "nlike" =>
@@ -138,7 +142,7 @@ def handle (toks : List String) : String :=
     match parseRows hays with
     | some hays =>
       -- kinds 2, 6, 10 are the view encodings (separate code path in `bit_length`)
-      let view := kind = "2" || kind = "6" || kind = "10"
+      let view := kind = "2" || kind = "6" || kind = "10" || kind = "15"
       showList (fun h : Row => match h with
         | none => "~"
         | some s => toString (if view then bitLengthModelView s else bitLengthModel s)) hays
